@@ -81,6 +81,19 @@ def cond_oracle(case):
         for g, pv in zip(givens, vals):
             if np.any(np.asarray(pv[p]) != v):
                 return ({"cls": cname, "clause": "conditional", "param": p}, "fixed parameter %s = %r becomes %r for given = %r" % (p, v, pv[p], g))
+    # ... whatever other conditional distributions exist in the process: a second one with the same fixed names but other values
+    # (created, evaluated) leaves this one's fixed values alone, and has its own
+    fixed2 = {p: (v * 1.7 + 0.3) for p, v in fixed.items()}
+    cd2 = dm.ConditionalDistribution(Cls(**{"f_" + p: v for p, v in fixed2.items()}), {p: (lambda g, a=th[p]: a * (1 + 0.05 * np.tanh(g))) for p in dep})
+    v2 = cd2._get_param_values(0.7)
+    v1 = cd._get_param_values(0.7)
+    for p, v in fixed.items():
+        if np.any(np.asarray(v1[p]) != v) or dict(cd.fixed_parameters).get(p) != v:
+            return ({"cls": cname, "clause": "conditional-history", "param": p},
+                    "after a second ConditionalDistribution(%s(f_%s=%r), ...) was created, the first one's fixed %s = %r reads %r (fixed_parameters %r)"
+                    % (cname, p, fixed2[p], p, v, v1[p], dict(cd.fixed_parameters)))
+        if np.any(np.asarray(v2[p]) != fixed2[p]):
+            return ({"cls": cname, "clause": "conditional-history", "param": p}, "second conditional distribution: fixed %s = %r reads %r" % (p, fixed2[p], v2[p]))
     # ... and evaluation with an integer-typed given uses the fixed value (same numbers as with the same values as floats)
     gi = np.array([1, 2, 3])
     for m in ("cdf", "pdf"):
@@ -127,6 +140,8 @@ def run(ctx):
                     for p in sub:   # boundary value 0 (as int or float) where it is admissible
                         if (cname, p) in ZERO_OK and (rep == 0 or rng.random() < 0.3):
                             fixed[p] = rng.choice([0, 0.0])
+                        elif rng.random() < 0.2:
+                            fixed[p] = rng.choice([1, 1.0])   # the neutral value of many parameters (delta = 1: plain Weibull), as int and float
                             th[p] = fixed[p]
                     for data in (("own", "other") if not ctx.quick() or rep == 0 else ("own",)):
                         cases.append({"cls": cname, "theta": th, "fixed": fixed, "fit": len(sub) < len(ps), "data": data,
